@@ -75,6 +75,23 @@ IsDrange(a, z, b, xs) ==
          /\ \A i \in 1..Len(xs) : Within(xs[i], a, z)
          /\ ~Within(Apply(xs[Len(xs)], b), a, z)
 
+\* ---------------------------------------------- the list as a function of the arguments alone -
+\* (recursive: small spans only; MC_Drange proves the machine's final list equal to it - MachineIsFunction)
+RECURSIVE Walk(_, _, _, _)
+Walk(x, a, z, b) == IF Within(x, a, z) THEN <<x>> \o Walk(Apply(x, b), a, z, b) ELSE <<>>
+
+\* A compound bump may move different start dates different ways ('1m-30d' moves 1 Feb back to 30 Jan and any d Jan
+\* forward to d+1 Jan; '1b-2d' moves a Friday forward and a Monday back; '1m-4w' does not move 1 Feb 2001 at all):
+\* which way a bump points is a fact about (t0, bump).  The statement describes the list "obtained by iterating
+\* dt_bump" when every step of that iteration moves towards t1 (and month units are applied to days that exist in
+\* every month): Steady.  Outside it the iteration may turn round and never pass t1 - not claimed.
+RECURSIVE SteadyFrom(_, _, _, _)
+SteadyFrom(x, a, z, b) == IF ~Within(x, a, z) THEN TRUE
+                          ELSE /\ Dir(x, b) = Toward(a, z)
+                               /\ HasMonthUnit(b) => CivilOf(x[1])[3] <= 28
+                               /\ SteadyFrom(Apply(x, b), a, z, b)
+Steady(a, z, b) == IF a = z \/ Dir(a, b) # Toward(a, z) THEN TRUE ELSE SteadyFrom(Start(a, b), a, z, b)
+
 \* ------------------------------------------- whole-day bumps: one movement, several spellings -
 \* "integer n, timedelta(n) and 'nd' give identical lists": an integer n, timedelta(days = n), 'nd'
 \* (and 'kw' = 7k days) denote the same movement; on endpoints for which both spellings are in the
@@ -108,6 +125,11 @@ Accepts(a, z, b, r) ==
     ELSE IF Dir(a, b) # Toward(a, z) THEN r = <<"exc", "ValueError">>
     ELSE r[1] = "ok" /\ IsDrange(a, z, b, r[2])
 
+Outcome(a, z, b) == IF a = z THEN <<"ok", <<a>>>>
+                    ELSE IF Dir(a, b) # Toward(a, z) THEN <<"exc", "ValueError">>
+                    ELSE <<"ok", Walk(Start(a, b), a, z, b)>>
+AcceptSeq(a, z, b) == IF SinglePointWeekend(a, z, b) THEN <<Outcome(a, z, b), <<"ok", <<>>>>>> ELSE <<Outcome(a, z, b)>>
+
 \* first clause of the statement that a returned value r breaks ("" = none)
 Explain(a, z, b, r) ==
     IF r[1] = "timeout" THEN "terminates"
@@ -123,4 +145,39 @@ Explain(a, z, b, r) ==
          ELSE IF \E i \in 1..(Len(xs) - 1) : xs[i + 1] # Apply(xs[i], b) THEN "iterates_bump"
          ELSE IF Within(Apply(xs[Len(xs)], b), a, z) THEN "stops_before_t1"
          ELSE ""
+\* ------------------------------------------------------------ realisations of the arguments ---
+\* The statement speaks of start dates, ints, timedeltas and period strings: VALUES.  A call receives objects; what
+\* it must return is decided by the values they denote, whatever carries them (law: Outcome of the denoted values).
+\*   bump   an integer as a Python int, a numpy integer of any width, an element taken from an array / a Series;
+\*          a timedelta as datetime.timedelta, a subclass of it, pandas.Timedelta;
+\*          a period string in lower / upper / mixed case, with '+' signs, as a str subclass, as numpy.str_
+\*   t0/t1  datetime, a subclass, pandas.Timestamp, datetime.date, numpy.datetime64 of unit D / s / us / ns,
+\*          a yyyymmdd integer, ISO strings 'yyyy-mm-dd', 'yyyymmdd', 'yyyy-mm-dd hh:mm:ss', 'yyyy-mm-ddThh:mm:ss.ffffff'
+SignedIntReals   == {"int", "np_int8", "np_int16", "np_int32", "np_int64", "np_intp", "np_longlong", "array_item", "series_item"}
+UnsignedIntReals == {"np_uint8", "np_uint16", "np_uint32", "np_uint64"}
+IntReals == SignedIntReals \cup UnsignedIntReals
+TdReals  == {"timedelta", "td_sub", "pd_Timedelta"}
+StrReals == {"l", "u", "p", "m", "str_sub", "np_str"}
+DayReals  == {"date", "np_D", "int", "str_d", "str_c"}      \* can only name a day
+SecReals  == {"np_s", "str_s"}                              \* whole seconds
+FullReals == {"datetime", "sub", "ts", "np_us", "str_us"}
+NsReals   == {"np_ns"}                                      \* int64 nanoseconds: 1678..2262 only
+EndReals  == DayReals \cup SecReals \cup FullReals \cup NsReals
+EndRealOk(r, t) == /\ r \in EndReals
+                   /\ r \in DayReals => IsMidnight(t)
+                   /\ r \in SecReals => t[3] = 0
+                   /\ r \in NsReals  => t[1] \in OrdOf(1700, 1, 1)..OrdOf(2250, 1, 1)
+\* Named restriction UnsignedOnlyToward: an unsigned numpy integer is a positive bump; pointing away from t1 the
+\* code fails inside numpy (OverflowError: -9 out of bounds for uint8) before it can say ValueError - reported as a
+\* finding, kept out of the domain here.
+BumpRealOk(r, a, z, b) ==
+    CASE b[1] = "int"   -> /\ r \in IntReals
+                           /\ r = "np_int8" => b[2] \in -128..127
+                           /\ r \in UnsignedIntReals => (b[2] > 0 /\ (r = "np_uint8" => b[2] <= 255) /\ Before(a, z))
+      [] b[1] = "td"    -> r \in TdReals
+      [] b[1] = "tenor" -> r \in StrReals
+\* reals = [t0 |-> r, t1 |-> r, bump |-> r]
+RealsOk(rs, a, z, b) == EndRealOk(rs.t0, a) /\ EndRealOk(rs.t1, z) /\ BumpRealOk(rs.bump, a, z, b)
+PlainReals(b) == [t0 |-> "datetime", t1 |-> "datetime",
+                  bump |-> CASE b[1] = "int" -> "int" [] b[1] = "td" -> "timedelta" [] OTHER -> "l"]
 =============================================================================
